@@ -1,8 +1,43 @@
-(* C15 -- Graph optimisation does not change what can be generated. (theorems under construction:
-   this file currently records the model-level facts proved so far) *)
-From Fences Require Import GraphSpec GraphOps.
+(* C15 -- Graph optimisation does not change what can be generated. *)
+From Fences Require Import GraphSpec GraphOps GraphOpt.
 
-(* optimize() is the identity on a root that is not a decision (Node.optimize: pass) *)
+(* For every graph (any mix of modes, sharing, cycles, chains of do-nothing decisions of any length) and
+   every complete execution of the interpreter before optimize() there is one after it that applies the same
+   side-effecting nodes (all nodes except NoOpDecisions) in the same order, and conversely.  No bound on the
+   depth of the executions, no consistency assumption is needed. *)
+Theorem C15_sem : forall fuel g root g',
+  optimize fuel g root = Ok g' ->
+  (forall f p tr, exec f g root p = Ok (tr, []) ->
+     exists f' p' tr', exec f' g' root p' = Ok (tr', []) /\ vis (is_noop g) tr' = vis (is_noop g) tr) /\
+  (forall f p tr, exec f g' root p = Ok (tr, []) ->
+     exists f' p' tr', exec f' g root p' = Ok (tr', []) /\ vis (is_noop g) tr' = vis (is_noop g) tr).
+Proof. exact optimize_exec. Qed.
+Print Assumptions C15_sem.
+
+(* in particular the invalid leaves applied by corresponding executions are the same *)
+Theorem C15_same_invalid_leaves : forall g tr tr',
+  vis (is_noop g) tr' = vis (is_noop g) tr -> invalid_leaves g tr' = invalid_leaves g tr.
+Proof.
+  intros g tr tr' H. rewrite <- (vis_invalid_leaves g tr'), <- (vis_invalid_leaves g tr), H. reflexivity.
+Qed.
+Print Assumptions C15_same_invalid_leaves.
+
+(* the statement holds for every node of the graph, not only for the root *)
+Theorem C15_sem_everywhere : forall fuel g root g',
+  optimize fuel g root = Ok g' ->
+  (forall x c tr, Run0 g x c tr -> exists c' tr', Run0 g' x c' tr' /\ vis (is_noop g) tr' = vis (is_noop g) tr) /\
+  (forall x c tr, Run0 g' x c tr -> exists c' tr', Run0 g x c' tr' /\ vis (is_noop g) tr' = vis (is_noop g) tr).
+Proof. exact optimize_sem. Qed.
+Print Assumptions C15_sem_everywhere.
+
 Theorem C15_non_decision : forall fuel g root, is_dec g root = false -> optimize fuel g root = Ok g.
 Proof. intros fuel g root H. unfold optimize. rewrite H. reflexivity. Qed.
-Print Assumptions C15_non_decision.
+
+(* non-vacuity: a chain of two do-nothing decisions between a side-effecting root and its leaves is spliced out *)
+Example C15_nonvacuous :
+  let g := build [NewNode (KDec false false) None; NewNode (KDec true true) None; NewNode (KDec false true) None;
+                  NewNode (KLeaf true) None; NewNode (KLeaf false) None;
+                  AddT 0 1; AddT 1 2; AddT 2 3; AddT 2 4] in
+  exists g', optimize 20 g 0 = Ok g' /\ outs_of g' 0 = [3; 4] /\
+             exec 20 g 0 [0; 1] = Ok ([0; 1; 2; 4], []) /\ exec 20 g' 0 [1] = Ok ([0; 4], []).
+Proof. eexists. split; [vm_compute; reflexivity|]. repeat split; vm_compute; reflexivity. Qed.
